@@ -3283,6 +3283,10 @@ class BatchDataset(Dataset):
                 item = item + len(self)
                 if item < 0:
                     raise IndexError(item - len(self))
+            elif self.drop_last and item >= len(self):
+                # Don't compute the examples of the incomplete last batch
+                # just to drop them and raise.
+                raise IndexError(item)
             input_index = item * self.batch_size
             current_batch = []
             for i in range(self.batch_size):
